@@ -140,6 +140,7 @@ def layout(rep, interps):
         if arr is None or arr.kind != 'array' or len(arr.axes) != nax:
             rep.ob('R01.layout', name, None, f'result not followed: {arr!r}'); continue
         ok = all(_preds(ax) == want for ax in arr.axes)
+        if not ok and any('?:' in show(ax) for ax in arr.axes): ok = None          # an axis that was not typed: undecided, not refuted
         rep.ob('R01.layout', name, ok, ' × '.join(show(a) for a in arr.axes))
 
 
